@@ -32,6 +32,16 @@ def make_project(rng, nfiles: int, tag: str) -> dict:
             if len(files) < nfiles:
                 files[k] = v[k]
         i += 1
+    # files whose language is known from a shebang only (no extension): a pair of them shares a block with each other and with a .py module, so
+    # the cross-file findings involve files that a suffix-based shortcut would not see
+    if nfiles >= 6:
+        shared = "    alpha_%s = left + right\n    beta_%s = alpha_%s * left\n    gamma_%s = beta_%s - right\n    delta_%s = gamma_%s + alpha_%s\n    return delta_%s\n" % ((tag,) * 9)
+        drop = sorted(files)[-3:]
+        for k in drop:
+            del files[k]
+        files["bin/deploy_%s" % tag] = "#!/usr/bin/env python3\ndef deploy_%s(left, right):\n%s" % (tag, shared)
+        files["bin/release_%s" % tag] = "#!/usr/bin/env python3\ndef release_%s(left, right):\n%s" % (tag, shared)
+        files["bin/helper_%s.py" % tag] = "def helper_%s(left, right):\n%s" % (tag, shared)
     return files
 
 
